@@ -30,6 +30,7 @@ import (
 	"go/constant"
 	"go/token"
 	"go/types"
+	"golang.org/x/tools/go/types/typeutil"
 )
 
 type lin struct{ c, k, l int } // c + k*K + l*L
@@ -111,6 +112,8 @@ type scVal struct {
 }
 
 type scEval struct {
+	prog   *Program // for following calls of helpers of the same package (may be nil)
+	depth  int
 	info   *types.Info
 	base   types.Object // the input string variable
 	sep    string
@@ -440,6 +443,40 @@ func (e *scEval) exec(list []ast.Stmt, stop func(ast.Stmt) bool) (rets []scVal, 
 					continue
 				}
 			}
+			// a, b = helper(x): the helper of the same package is evaluated on the argument values
+			if len(s.Lhs) > 1 && len(s.Rhs) == 1 && e.prog != nil && e.depth < 3 {
+				if call, ok := ast.Unparen(s.Rhs[0]).(*ast.CallExpr); ok {
+					if fo, ok := typeutil.Callee(e.info, call).(*types.Func); ok && fo.Pkg() == e.prog.Pkg.Types {
+						if fd := declOfObj(e.prog, fo); fd != nil && fd.Recv == nil && fd.Body != nil {
+							ps := paramObjs(e.info, fd)
+							if len(ps) == len(call.Args) {
+								for i, a := range call.Args {
+									e.env[ps[i]] = e.expr(a)
+								}
+								e.depth++
+								rets, returned, _ := e.exec(fd.Body.List, nil)
+								e.depth--
+								if e.why != "" {
+									return nil, false, nil
+								}
+								if !returned || len(rets) != len(s.Lhs) {
+									e.fail("helper %s does not return %d values on this path", fo.Name(), len(s.Lhs))
+									return nil, false, nil
+								}
+								for i, l := range s.Lhs {
+									if id, ok := l.(*ast.Ident); ok && id.Name == "_" {
+										continue
+									}
+									if o := identObj(e.info, l); o != nil {
+										e.env[o] = rets[i]
+									}
+								}
+								continue
+							}
+						}
+					}
+				}
+			}
 			if len(s.Lhs) != len(s.Rhs) || (s.Tok != token.DEFINE && s.Tok != token.ASSIGN) {
 				e.fail("unsupported assignment form")
 				return nil, false, nil
@@ -555,7 +592,7 @@ func checkSplitPathContract(p *Program, fd *ast.FuncDecl) scResult {
 	}
 	unsafe := map[ast.Node]string{}
 	for _, cs := range scCases() {
-		e := &scEval{info: info, base: ps[0], sep: "/", cs: cs, env: map[types.Object]scVal{}, proven: res.Proven, unsafe: unsafe}
+		e := &scEval{prog: p, info: info, base: ps[0], sep: "/", cs: cs, env: map[types.Object]scVal{}, proven: res.Proven, unsafe: unsafe}
 		e.env[ps[0]] = e.baseVal()
 		rets, returned, _ := e.exec(fd.Body.List, nil)
 		if e.why != "" {
@@ -616,7 +653,7 @@ func pathVarExtraction(p *Program, list []ast.Stmt, pObj types.Object, stop func
 		{name: "no separator in the rest", found: false},
 		{name: "separator found", found: true},
 	} {
-		e := &scEval{info: info, base: pObj, sep: "/", cs: cs, env: map[types.Object]scVal{}, proven: res.Proven, unsafe: unsafe}
+		e := &scEval{prog: p, info: info, base: pObj, sep: "/", cs: cs, env: map[types.Object]scVal{}, proven: res.Proven, unsafe: unsafe}
 		e.env[pObj] = e.baseVal()
 		_, returned, at := e.exec(list, stop)
 		if e.why != "" {
